@@ -61,7 +61,12 @@ impl FakeState {
         let resp = match fault {
             Some((_, 'D')) => b"D\n".to_vec(),
             Some((_, 'E')) => b"E\n".to_vec(),
-            Some((_, _)) => b"F injected fault\n".to_vec(),
+            // a long message with multi-byte characters (both byte parities): whoever shortens or
+            // slices the error text must do it on a character boundary
+            Some((_, _)) => {
+                let pad = if i % 2 == 0 { "" } else { "x" };
+                format!("F {pad}{} injected fault\n", "\u{e9}\u{20ac}".repeat(160)).into_bytes()
+            }
             None => match self.table.get(line) {
                 Some(r) => r.clone(),
                 None => {
